@@ -171,6 +171,12 @@ func collectImportsFromType(t types.Type, pkg string, imports map[string]*Import
 			}
 		}
 	case *types.Alias:
+		// Type arguments of an instantiated generic alias are spelled out as well
+		if typeArgs := typ.TypeArgs(); typeArgs != nil {
+			for i := 0; i < typeArgs.Len(); i++ {
+				collectImportsFromType(typeArgs.At(i), pkg, imports, referencedImports, varPool)
+			}
+		}
 		if objPkg := typ.Obj().Pkg(); objPkg != nil && objPkg.Path() != pkg {
 			pkgPath := objPkg.Path()
 			if imp, exists := imports[pkgPath]; exists {
